@@ -162,10 +162,18 @@ type vtimer struct {
 	fired  bool
 }
 
-// NewTimer returns a real timer when no scheduler execution is active. Under the scheduler it returns a
+// NewTimer returns a real timer when no scheduler execution is active and the clock is real. Under the scheduler it returns a
 // timer that never fires by itself (its channel is owned by this package): MaybeTimeout fires it.
 func NewTimer(d time.Duration) *time.Timer {
 	if !vsched.Active() {
+		mu.Lock()
+		frozen := virtual
+		mu.Unlock()
+		if frozen {
+			// virtual clock without a scheduler (sequential harness): time stands still unless the harness advances
+			// it, so a timer never fires by itself - a worker descheduled for longer than the duration loses nothing
+			return time.NewTimer(24 * 365 * time.Hour)
+		}
 		return time.NewTimer(d)
 	}
 	t := time.NewTimer(24 * 365 * time.Hour)
